@@ -55,7 +55,7 @@ def _explore_job(args):
             viols.append({"v": v.to_json(), "labels": trace, "choices": path})
         return {"name": scenario["name"], "family": scenario.get("family"), "states": res.states,
                 "transitions": res.transitions, "executions": res.executions, "max_depth": res.max_depth,
-                "caps": res.caps, "outcomes": len(res.outcomes), "outcome_keys": list(res.outcomes)[:4], "violations": viols,
+                "caps": res.caps, "outcomes": len(res.outcomes), "outcome_keys": list(res.outcomes)[:4], "violations": viols, "paths": res.replays + 1,
                 "wall": res.wall, "bound": bound, "sample": res.sample_paths[:1], "replays": res.replays}
     except Exception as e:
         return {"name": scenario.get("name"), "error": "%s: %s\n%s" % (type(e).__name__, e, traceback.format_exc())}
@@ -88,7 +88,7 @@ def site_fn(site):
 def signature(prop, family, v):
     """(monitor, kind, scenario family, engine function issuing the offending operation, kind-specific extra)."""
     extra = v.get("extra") or {}
-    ex = ",".join("%s=%s" % (k, extra[k]) for k in sorted(extra) if k in ("queue", "state", "attr", "timer", "error", "first", "second", "what", "index"))
+    ex = ",".join("%s=%s" % (k, extra[k]) for k in sorted(extra) if k in ("queue", "state", "attr", "timer", "error", "first", "second", "what", "index", "in"))
     return "%s|%s|%s|%s|%s" % (v["monitor"], v["kind"], family, site_fn(v.get("site")), ex)
 
 def collect(cr, outs, scen_by_name, props_of, monitor_set):
@@ -98,7 +98,7 @@ def collect(cr, outs, scen_by_name, props_of, monitor_set):
     samples = []
     for o in outs:
         tot["states"] += o["states"]; tot["transitions"] += o["transitions"]; tot["executions"] += o["executions"]
-        tot["max_depth"] = max(tot["max_depth"], o["max_depth"]); tot["replays"] += o["replays"]
+        tot["max_depth"] = max(tot["max_depth"], o["max_depth"]); tot["replays"] += o["replays"]; tot["paths"] = tot.get("paths", 0) + o["paths"]
         if o["caps"]:
             tot["capped"].append({"scenario": o["name"], "caps": sorted(set(o["caps"]))})
         if o["bound"] is None and not o["caps"]:
@@ -130,20 +130,47 @@ def load_known():
                 known.append(json.loads(line))
     return known
 
+def known_match(k, prop, sig):
+    """An open entry matches a violation signature exactly, or - for a schedule-dependent root cause that shows up
+    under many scenario families - through a field pattern: signature = monitor|kind|family|site|extra."""
+    import re
+    if prop not in ([k.get("property")] + list(k.get("also_properties", []))) or k.get("status", "open") != "open":
+        return False
+    if "signature" in k:
+        return k["signature"] == sig
+    m = k.get("match")
+    if not m:
+        return False
+    parts = sig.split("|")
+    if len(parts) < 5:
+        return False
+    fields = {"monitor": parts[0], "kind": parts[1], "family": parts[2], "site": parts[3], "extra": "|".join(parts[4:])}
+    for f, pat in m.items():
+        if not re.search(pat, fields.get(f, "")):
+            return False
+    return True
+
 def finish(cr, tier, seed, t0):
     """Write evidence + replay files, print KNOWN-FINDING / VIOLATION lines, return the exit code."""
     known = load_known()
     open_sigs = {}
-    for k in known:
-        if k.get("property") == cr.prop and k.get("status", "open") == "open":
-            open_sigs[k["signature"]] = k
+    for sig in cr.findings:
+        for k in known:
+            if known_match(k, cr.prop, sig):
+                open_sigs[sig] = k
+                break
     unlisted = 0
+    printed = set()
     rdir = os.path.join(VERIF, "replays", cr.prop)
     os.makedirs(rdir, exist_ok=True)
     for sig in sorted(cr.findings):
         f = cr.findings[sig]
         if sig in open_sigs:
-            print("KNOWN-FINDING: property=%s %s [%s] (x%d)" % (cr.prop, open_sigs[sig].get("what", f.detail), sig, f.count))
+            kf = open_sigs[sig]
+            key = kf.get("id") or kf.get("signature")
+            if key not in printed:
+                printed.add(key)
+                print("KNOWN-FINDING: property=%s %s [%s]" % (cr.prop, kf.get("what", f.detail), key))
             continue
         unlisted += 1
         h = hashlib.sha1(sig.encode()).hexdigest()[:12]
@@ -179,3 +206,55 @@ def _jd(o):
     if isinstance(o, (set, frozenset, tuple)):
         return list(o)
     return repr(o)
+
+# ------------------------------------------------------------------------------------------------------
+def annotate(sc, inband=True):
+    """Attach the reference outcome of every scripted start to the scenario (scenario['expect'])."""
+    from ref import asl as RA
+    from harness.world import exec_arn
+    import copy
+    exp = {}
+    tasks = RA.ScriptedTasks(sc.get("workers", {}))
+    for s in sc.get("starts", []):
+        arn = exec_arn(s["machine"], s["name"])
+        d = sc["machines"][s["machine"]]["definition"]
+        try:
+            strict = RA.run(d, copy.deepcopy(s.get("input", {})), RA.ScriptedTasks(sc.get("workers", {})),
+                            context={"Execution": {"Input": copy.deepcopy(s.get("input", {})), "Name": s["name"]}},
+                            exec_timeout=sc.get("execution_ttl", 300))
+            exp[arn] = {"status": strict.status, "output": strict.output, "error": strict.error, "end_time": strict.end_time,
+                        "task_log": [[a, list(map(list, b)), c, t] for a, b, c, t in strict.task_log]}
+        except RA.Unjudged as e:
+            exp[arn] = {"status": None, "why": str(e)}
+        if sc.get("expect_any_error"):
+            exp[arn] = {"status": "FAILED", "errors": sc["expect_any_error"]}
+            if any(k in json.dumps(d) for k in ('"Catch"',)):
+                exp[arn] = {"status": None, "why": "several failures with a catcher: outcome depends on which failure is first"}
+    sc["expect"] = exp
+    return sc
+
+def engine_check(prop, scs, monitors, tier, seed, bound_for=None, limits=None, monset="full", extra_cov=None):
+    """Explore every scenario (closed unless bound_for(sc) says otherwise) with the full monitor set; keep the
+    violations of `monitors`."""
+    cr = CheckResult(prop)
+    limits = limits or {"max_states": 30000 if tier == "quick" else 400000, "max_depth": 400}
+    for sc in scs:
+        if "expect" not in sc:
+            annotate(sc)
+    jobs = [(sc, bound_for(sc) if bound_for else None, limits) for sc in scs]
+    outs = explore_many("checks.monsets", monset, jobs, seed)
+    tot, samples = collect(cr, outs, {s["name"]: s for s in scs}, lambda v: v["monitor"] in monitors, monset)
+    vac = [o["name"] for o in outs if o["executions"] > 1 and o["outcomes"] == 1 and o["states"] < 5]
+    cr.coverage = {
+        "states": tot["states"], "transitions": tot["transitions"], "traces_validated_against_impl": tot["paths"],
+        "quiescent_states_reached": tot["executions"],
+        "samples": samples, "scenarios": tot["scenarios"], "closed_scenarios": tot["closed"], "bounded_scenarios": tot["bounded"],
+        "capped": tot["capped"], "max_depth": tot["max_depth"], "multi_outcome_scenarios": tot["multi_outcome_scenarios"],
+        "exhaustive": not tot["capped"] and tot["bounded"] == 0, "monitors": list(monitors),
+        "per_scenario": [{"scenario": o["name"], "states": o["states"], "transitions": o["transitions"], "complete_executions": o["executions"],
+                          "bound": o["bound"], "caps": sorted(set(o["caps"]))} for o in outs],
+    }
+    if extra_cov:
+        cr.coverage.update(extra_cov)
+    cr.assumptions = list(ASSUME_SIM) + ["reference interpreter ref/asl.py for the differential clauses"]
+    return cr
